@@ -59,6 +59,10 @@ pub enum Spell {
     Esc,
     // `\xHH` (only used for ASCII characters)
     Hex,
+    // `\xHH` for U+0080..U+00FF as well. What such an escape denotes is not
+    // stated anywhere, so this spelling is only used where the oracle does
+    // not depend on the value (no-crash, interpolation == concatenation).
+    HexLatin,
 }
 
 #[derive(Clone, Debug, PartialEq)]
